@@ -532,7 +532,11 @@ class FJParser(sly.Parser):
             # the input ended in the middle of a statement/block - there is no token (nor a line) to point at
             error_string = f'Syntax Error at the end of file {curr_file}. Maybe missing }} or {{ before the end of the file?'
         else:
-            error_string = f'Syntax Error in {get_position(token.lineno)}, token=("{token.type}", {token.value})'
+            # (a NUMBER token's value is an int, and str() of an int refuses more than sys.get_int_max_str_digits() digits)
+            value = token.value
+            if isinstance(value, int) and abs(value) >= (1 << 4096):
+                value = hex(value)
+            error_string = f'Syntax Error in {get_position(token.lineno)}, token=("{token.type}", {value})'
 
         all_errors += f"{error_string}\n"
         print(error_string)
